@@ -44,16 +44,30 @@ impl CredHandler {
 // nonempty::NonEmpty<CredHandler>: `.iter().filter(f).cloned().collect()` and `into_iter().collect()` are inherent methods of the
 // stand-ins below (same names as std); only their results' emptiness matters here, so they carry no specification
 pub struct NonEmpty<T> { pub head: T, pub tail: Vec<T> }
-#[verifier::external_body] #[verifier::reject_recursive_types(T)] pub struct KvxIt<T> { p: core::marker::PhantomData<T> }
+#[verifier::external_body] #[verifier::reject_recursive_types(T)] pub struct KvxIt<'a, T> { p: core::marker::PhantomData<&'a T> }
+#[verifier::external_body] #[verifier::reject_recursive_types(T)] pub struct KvxOwnedIt<T> { p: core::marker::PhantomData<T> }
 impl<T> NonEmpty<T> {
-    #[verifier::external_body] pub fn iter(&self) -> (r: KvxIt<T>) { unimplemented!() }
-    #[verifier::external_body] pub fn into_iter(self) -> (r: KvxIt<T>) { unimplemented!() }
+    #[verifier::external_body] pub fn iter(&self) -> (r: KvxIt<'_, T>) { unimplemented!() }
+    #[verifier::external_body] pub fn into_iter(self) -> (r: KvxOwnedIt<T>) { unimplemented!() }
+    #[verifier::external_body] pub fn first(&self) -> (r: &T) { unimplemented!() }
+    #[verifier::external_body] pub fn last(&self) -> (r: &T) { unimplemented!() }
+    #[verifier::external_body] pub fn len(&self) -> (r: usize) { unimplemented!() }
 }
-impl<T> KvxIt<T> {
-    #[verifier::external_body] pub fn filter<F: Fn(&&T) -> bool>(self, f: F) -> (r: KvxIt<T>) { unimplemented!() }
-    #[verifier::external_body] pub fn cloned(self) -> (r: KvxIt<T>) { unimplemented!() }
+impl<'a, T> KvxIt<'a, T> {
+    #[verifier::external_body] pub fn filter<F: Fn(&&'a T) -> bool>(self, f: F) -> (r: KvxIt<'a, T>) { unimplemented!() }
+    #[verifier::external_body] pub fn rev(self) -> (r: KvxIt<'a, T>) { unimplemented!() }
+    #[verifier::external_body] pub fn find<F: Fn(&&'a T) -> bool>(self, f: F) -> (r: Option<&'a T>) { unimplemented!() }
+    #[verifier::external_body] pub fn next(&mut self) -> (r: Option<&'a T>) { unimplemented!() }
+    #[verifier::external_body] pub fn last(self) -> (r: Option<&'a T>) { unimplemented!() }
+    #[verifier::external_body] pub fn any<F: Fn(&'a T) -> bool>(self, f: F) -> (r: bool) { unimplemented!() }
+    #[verifier::external_body] pub fn cloned(self) -> (r: KvxOwnedIt<T>) { unimplemented!() }
+}
+impl<T> KvxOwnedIt<T> {
     #[verifier::external_body] pub fn collect(self) -> (r: Vec<T>) { unimplemented!() }
+    #[verifier::external_body] pub fn next(&mut self) -> (r: Option<T>) { unimplemented!() }
+    #[verifier::external_body] pub fn last(self) -> (r: Option<T>) { unimplemented!() }
 }
+impl Clone for CredHandler { #[verifier::external_body] fn clone(&self) -> (r: CredHandler) { unimplemented!() } }
 pub struct Source { pub o: u8 }
 impl Source { #[verifier::external_body] pub fn clone(&self) -> (r: Source) { unimplemented!() } }
 impl From<Source> for AuditSource { #[verifier::external_body] fn from(s: Source) -> (r: AuditSource) { unimplemented!() } }
